@@ -99,6 +99,7 @@ func obsFilters() []model.FilterSpec {
 		{Params: []ct.Comp{ct.P}},                        // f3
 		{Params: []ct.Comp{ct.R1, ct.R2}},                // f4
 		{Params: []ct.Comp{ct.P}, Without: ct.Of(ct.R1)}, // f5
+		{}, // f6: everything (clean-up at the end of a transition round)
 	}
 }
 
@@ -106,9 +107,6 @@ func obsFilters() []model.FilterSpec {
 // through single and batch operations, plus Set, target changes, entity removal, Copy and Emit.
 func transitions(p *obsProg, full bool) {
 	u := []ct.Comp{ct.P, ct.Q, ct.R1}
-	if p.x.M.NumAlive() > 40 {
-		return
-	}
 	// two targets
 	t1 := p.n()
 	p.do(model.Op{K: model.OpNew, Path: model.PathUnsafe, Cs: ct.Of(ct.T9)})
@@ -231,6 +229,8 @@ func transitions(p *obsProg, full bool) {
 	}
 	p.do(model.Op{K: model.OpRemoveEntity, E: t1}) // target death: no events
 	p.do(model.Op{K: model.OpRemoveEntity, E: t2})
+	// every round starts from an empty world (a case consists of several rounds)
+	p.do(model.Op{K: model.OpRemoveEntities, F: 6})
 }
 
 type obsCase struct {
@@ -238,6 +238,9 @@ type obsCase struct {
 	Offset int // component-ID offset (dummy types registered first)
 	Plan   int // 0: register all, run; 1: + unregister first, run, re-register, run; 2: reverse registration order + unregister last
 	Full   bool
+	// Un: after registering all and running once, unregister these observers one at a time (transitions
+	// after each), then register them again in the same order (transitions after each)
+	Un []int `json:",omitempty"`
 }
 
 type obsFound struct {
@@ -262,6 +265,16 @@ func runObsCase(c obsCase) *obsFound {
 		}
 	}
 	transitions(p, c.Full)
+	if len(c.Un) > 0 && p.v == nil {
+		for _, i := range c.Un {
+			p.do(model.Op{K: model.OpUnobserve, O: i})
+			transitions(p, false)
+		}
+		for _, i := range c.Un {
+			p.do(model.Op{K: model.OpObserve, O: i})
+			transitions(p, false)
+		}
+	}
 	if c.Plan >= 1 && p.v == nil {
 		victim := 0
 		if c.Plan == 2 {
@@ -340,7 +353,7 @@ func runObsCases(gen func(emit func(obsCase)), deadline time.Time) (cases int64,
 func init() {
 	Registry["C08"] = func(t Tier) *Check {
 		chk := &Check{ID: "C08",
-			Rule: "case enumeration: for each of the 7 built-in event types and 2 custom ones, every observer specification (observed set x With x Without|exclusive) over {P,Q,R1} alone, every ordered pair (and in thorough: triples) of simultaneously registered specifications over a smaller universe, with register / unregister-first / re-register / reverse-order plans and observers that unregister themselves or a neighbour inside the callback; each case runs all 56 (old set -> new set) single-entity transitions over {P,Q,R1} through MapN/Map/ExchangeN/ID-based paths, Set, relation target changes, Copy, entity removal, custom Emit and every batch form; per operation the multiset of (observer, entity) callbacks must equal the documented predicate evaluated per observer; states = cases, non-trivial = cases in which at least one callback ran",
+			Rule: "case enumeration: for each of the 7 built-in event types and 2 custom ones, every observer specification (observed set x With x Without|exclusive) over {P,Q,R1} alone, every ordered pair (and in thorough: triples) of simultaneously registered specifications over a smaller universe, with register / unregister-first / re-register / reverse-order plans, triples of specifications (observed in {none,R1} x With in {none,P,Q}) with every order of unregistering two of the three and registering them again, and observers that unregister themselves or a neighbour inside the callback; each case runs all 56 (old set -> new set) single-entity transitions over {P,Q,R1} through MapN/Map/ExchangeN/ID-based paths, Set, relation target changes, Copy, entity removal, custom Emit and every batch form; per operation the multiset of (observer, entity) callbacks must equal the documented predicate evaluated per observer; states = cases, non-trivial = cases in which at least one callback ran",
 		}
 		// 70 simultaneously registered observers (more than 64), mass unregistration
 		sd := 3
@@ -398,6 +411,26 @@ func init() {
 					for i, a := range ss {
 						for j, b := range ss {
 							emit(obsCase{Specs: []model.ObsSpec{a, b}, Plan: 1 + (i+j)%2})
+						}
+					}
+				}
+				// triples with every order of unregistering two of the three (the aggregates kept per event type
+				// - union of observed and of required components, "any without ..." flags - are recomputed on
+				// every unregistration): observed in {none, R1}, With in {none, P, Q}, no exclusions
+				for _, ev := range events {
+					var ss []model.ObsSpec
+					for _, f := range []ct.Set{0, ct.Of(ct.R1)} {
+						for _, w := range []ct.Set{0, ct.Of(ct.P), ct.Of(ct.Q)} {
+							ss = append(ss, model.ObsSpec{Event: ev, For: f, With: w})
+						}
+					}
+					for _, a := range ss {
+						for _, b := range ss {
+							for _, c := range ss {
+								for _, un := range [][]int{{0, 1}, {1, 0}, {0, 2}, {2, 0}, {1, 2}, {2, 1}} {
+									emit(obsCase{Specs: []model.ObsSpec{a, b, c}, Un: un})
+								}
+							}
 						}
 					}
 				}
@@ -476,6 +509,7 @@ func init() {
 			}
 			return 1
 		}
+		addThreshold(chk, "many-observers", manyObserversSweep, "n in {2,63..66,127..129,255..258,300} observers on one event type, observers at the first, last, middle and the positions around 256 unregistered one after the other and registered again: one event reaches exactly the registered ones")
 		addThreshold(chk, "event-types", func() (int, int, []*drv.Violation) { return runCases(eventTypesCase) }, "all 249 custom event types of an EventRegistry are distinct from each other and from the built-in ones, can be emitted, and observers of the first, last and word-boundary ones fire exactly once")
 		return chk
 	}
